@@ -68,12 +68,15 @@ impl Property for C16 {
     }
     fn cases(&self, tier: Tier) -> u64 {
         match tier {
-            Tier::Quick => 120_000,
-            Tier::Thorough => 4_000_000,
+            Tier::Quick => 150000,
+            Tier::Thorough => 5000000,
         }
     }
     fn claims_termination(&self) -> bool {
         true
+    }
+    fn case_from_raw(&mut self, raw: &[u8]) -> Option<Case> {
+        Some(Case { file: util::hex(raw), note: "raw fuzzer input".into() })
     }
     fn setup(&mut self) {
         // address-space limit: a request of 2^40…2^64 bytes fails in the real allocator -> abort -> seen by the supervisor
@@ -83,7 +86,7 @@ impl Property for C16 {
         }
         for n in super::c15::TESTDATA.iter() {
             if let Ok(b) = std::fs::read(format!("/repo/testdata/{}", n)) {
-                if b.len() < (1 << 20) {
+                if b.len() < (1 << 16) {
                     self.seeds.push(b);
                 }
             }
